@@ -153,6 +153,9 @@ def judge(payload, params):
         res = st['res']
         res['tags'] = set(res['tags'])
         res['ex'] = set(res['ex'])
+        if 'unspecified' in res['tags']:
+            stats['unspecified-terms'] += 1
+            continue
         if primary:
             stats['states'] += 1
             if nontrivial(prop, st):
